@@ -185,10 +185,10 @@ struct OffsetAndSize {
 }
 
 impl OffsetAndSize {
-    fn new(chunk: &ChunkMut) -> Self {
+    fn new(chunk: &ChunkMut, sample_size: usize) -> Self {
         Self {
             offset: chunk.offset.as_value(),
-            size: chunk.size(),
+            size: sample_size,
         }
     }
 }
@@ -274,7 +274,13 @@ impl<Service: service::Service> PublisherSharedState<Service> {
             Some(history) => {
                 let history = unsafe { &mut *history.get() };
                 self.sender.borrow_chunk(chunk.offset());
-                match history.push_with_overflow(OffsetAndSize::new(chunk)) {
+                // the size handed to the connection later is the distance between two chunks of the
+                // segment (bucket size) - a grown (serialized) chunk may be smaller than its bucket
+                let sample_size = self
+                    .sender
+                    .data_segment
+                    .bucket_size(chunk.offset().segment_id());
+                match history.push_with_overflow(OffsetAndSize::new(chunk, sample_size)) {
                     None => (),
                     Some(old) => self
                         .sender
